@@ -1,6 +1,7 @@
 package props
 
 import (
+	"sort"
 	"fmt"
 	"go/types"
 	"strings"
@@ -64,7 +65,7 @@ func runC10(p *core.Prog, r *core.Report) {
 				okV, why := false, "assigned "+sx.ValPath(a.Val)
 				switch x := a.Val.(type) {
 				case *ssa.Parameter:
-					okV = ref.Fn == c.Parse
+					okV = sameFn(ref.Fn, c.Parse)
 					why = "Parse's parameter"
 				case *ssa.Slice:
 					if derivesFromField(x.X, "FlagSet", args) && x.High == nil && x.Max == nil {
@@ -103,14 +104,13 @@ func runC10(p *core.Prog, r *core.Report) {
 			if ok {
 				// the non-nil edge returns the error
 				for e := range nonNil {
-					b := e.To()
-					ret, isR := b.Instrs[len(b.Instrs)-1].(*ssa.Return)
-					if !isR {
+					_, rv, isR := edgeReturn(e, -1)
+					if !isR || rv == nil {
 						ok, why = false, "the error edge of Set does not return"
 						continue
 					}
 					carries := false
-					for _, lf := range leaves(returnValue(ret, len(ret.Results)-1)) {
+					for _, lf := range leaves(rv) {
 						if lf == v {
 							carries = true
 						}
@@ -141,14 +141,13 @@ func runC10(p *core.Prog, r *core.Report) {
 			_, nonNil := sx.NilEdges(call)
 			ok2 := len(nonNil) > 0
 			for e := range nonNil {
-				b := e.To()
-				ret, isR := b.Instrs[len(b.Instrs)-1].(*ssa.Return)
-				if !isR {
+				_, rv, isR := edgeReturn(e, -1)
+				if !isR || rv == nil {
 					ok2 = false
 					continue
 				}
 				carries := false
-				for _, lf := range leaves(returnValue(ret, len(ret.Results)-1)) {
+				for _, lf := range leaves(rv) {
 					if lf == ssa.Value(call) {
 						carries = true
 					}
@@ -161,7 +160,7 @@ func runC10(p *core.Prog, r *core.Report) {
 		})
 		// flagMap lookups in the scanner
 		fm := fieldByName(c.FlagSet, "flagMap")
-		for f := range c.FromP {
+		for _, f := range c.ViewFns {
 			sx.Instrs(f, func(in ssa.Instruction) {
 				lk, ok := in.(*ssa.Lookup)
 				if !ok || !sx.Origins(lk.X)["field:FlagSet."+fm.Name()] {
@@ -208,7 +207,7 @@ func runC10(p *core.Prog, r *core.Report) {
 			})
 		}
 		// every return of the scanner is nil or a freshly built error
-		for f := range c.FromP {
+		for _, f := range c.ViewFns {
 			if f == c.Parse || f.Signature.Results().Len() != 1 || f.Signature.Results().At(0).Type().String() != "error" || f.Signature.Recv() == nil {
 				continue
 			}
@@ -221,18 +220,43 @@ func runC10(p *core.Prog, r *core.Report) {
 
 	// ---- R4
 	{
+		// the scanner: the function Parse calls (nearest to Parse in the call tree) whose inlined view records command-line
+		// text in Flag.ArgValue; a per-token helper of it is seen in place
 		var scanner *ssa.Function
 		argV := fieldByName(c.Flag, "ArgValue")
-		for f := range c.FromP {
-			for _, ref := range sx.FieldRefs([]*ssa.Function{f}, argV) {
+		writesArg := func(v *ssa.Function) bool {
+			hit := false
+			for _, ref := range sx.FieldRefs([]*ssa.Function{v}, argV) {
 				if fa, ok := ref.Instr.(*ssa.FieldAddr); ok {
 					for _, a := range sx.Accesses(fa) {
 						if a.Kind == "write" {
-							scanner = f
+							hit = true
 						}
 					}
 				}
 			}
+			return hit
+		}
+		level := []*ssa.Function{c.ParseSrc}
+		seenLv := map[*ssa.Function]bool{c.ParseSrc: true}
+		for depth := 0; depth < 5 && scanner == nil && len(level) > 0; depth++ {
+			var next []*ssa.Function
+			for _, f := range level {
+				for _, callee := range staticCalls(p).callees[f] {
+					if seenLv[callee] || !p.InModule(callee) || callee.Parent() != nil || callee.Blocks == nil {
+						continue
+					}
+					seenLv[callee] = true
+					next = append(next, callee)
+				}
+			}
+			sort.Slice(next, func(i, j int) bool { return next[i].String() < next[j].String() })
+			for _, f := range next {
+				if v := p.Inl(f); scanner == nil && writesArg(v) && outerLoop(v) != nil {
+					scanner = v
+				}
+			}
+			level = next
 		}
 		if scanner == nil {
 			r.Fail("C10-R4", "argument scanner", "-", "no function reachable from Parse assigns Flag.ArgValue")
@@ -275,7 +299,7 @@ func runC10(p *core.Prog, r *core.Report) {
 	// ---- R6 / R7: what ends up in ArgValue
 	{
 		argV := fieldByName(c.Flag, "ArgValue")
-		for f := range c.FromP {
+		for _, f := range c.ViewFns {
 			for _, ref := range sx.FieldRefs([]*ssa.Function{f}, argV) {
 				fa, ok := ref.Instr.(*ssa.FieldAddr)
 				if !ok {
